@@ -116,15 +116,17 @@ CHECKS = {
              "declared nodes is ever missing (C12_no_link_missing) - the stop case only adds edges to undeclared nodes: "
              "refutation witness C12_stop_refuted (known finding KF-C12-1, pinned by tests/refdata); escaping round-trip / "
              "injective / well-formed on the character class extracted from /repo; unique-id table defined/stable/"
-             "injective; verbatim placement. Tie: exact line text of DotExporter/UniqueDotExporter/RenderTreeGraph on "
+             "injective and the printed '0x..' identifiers distinct per node (C12_hex_injective, "
+             "C12_unique_names_distinct); verbatim placement. Tie: exact line text of DotExporter/UniqueDotExporter/RenderTreeGraph on "
              "every shape <= 4 nodes x stop subsets x filter subsets x maxlevel + random rich cases (special characters, "
              "custom functions, options, indent, file output), each exporter iterated twice.",
-        design="6/C12, 7 (D7, D8)", note="hex() rendering injectivity not proved; str()/file I/O are CPython's.",
+        design="6/C12, 7 (D7, D8)", note="str()/file I/O are CPython's.",
         technique="Coq proof (guarded edge theorem + refutation) + exact-text correspondence + known-finding class"),
     "C13": dict(
         text="Theorems: node lines = C06 pre-order; edge lines = exactly the parent-child pairs with both ends admitted "
              "and filtered, for every filter_/stop/maxlevel (maxlevel=0 after the fix: commit 04bedb8); default label "
-             "escaping round-trip/well-formed on the extracted class; id table stable/injective; verbatim placement. "
+             "escaping round-trip/well-formed on the extracted class; id table stable/injective, printed 'N<k>' "
+             "identifiers distinct per node (C13_names_distinct); verbatim placement. "
              "Tie: exact line text on every shape <= 4 nodes x stop x filter x maxlevel + random rich cases; to_file "
              "fencing checked by the harness.",
         design="6/C13", note="str()/file I/O are CPython's.",
@@ -146,8 +148,9 @@ CHECKS = {
              "(C08_relaxed_total) and yields exactly the denotation of the component list (C08_relaxed_den: membership "
              "iff); without '**'/'..' the result is a subsequence of the (duplicate-free) pre-order of the start node's "
              "subtree (C08_relaxed_preorder) and it is duplicate-free whenever no '..' follows a name or wildcard "
-             "component (C08_relaxed_nodup). These clauses and the agreement with get are also evaluated in Coq on "
-             "observed results. Tie: patterns over names/wildcards/**/../. on trees <= 4 nodes, glob vs get, 60-call cache "
+             "component (C08_relaxed_nodup); in strict mode glob agrees with get (same node, same error class) on "
+             "wildcard-free paths over sibling-unique names, component lists and whole path strings "
+             "(C08_strict_agrees_with_get[_path]). All clauses are also evaluated in Coq on observed results. Tie: patterns over names/wildcards/**/../. on trees <= 4 nodes, glob vs get, 60-call cache "
              "histories across _MAXCACHE each compared with cold-cache runs.",
         design="6/C08, 7 (D6), 0", note="strict-vs-relaxed clause refuted (KF-C08-1); everything else proved.",
         technique="Coq proof (matcher, cache invariant) + refutation + correspondence with denotational spec evaluated in Coq"),
@@ -192,7 +195,9 @@ CHECKS = {
     "C19": dict(
         text="Partial by nature (the copier is CPython's). Proved: in a consistent forest the object graph reachable from "
              "any entry node through parent/children/target references contains its whole tree and the targets' trees; "
-             "the consistency check evaluated on copies is the C01 invariant. The contract of the copier is evaluated in "
+             "an isomorphic copy of a closed part of a consistent forest is a consistent forest "
+             "(C19_isomorphic_copy_consistent: the contract clauses imply the C01 invariant of the copy); the "
+             "consistency check evaluated on copies is the C01 invariant. The contract of the copier is evaluated in "
              "Coq on every explored copy: reachable set, bijective renaming, shape, child order, classes, attributes, "
              "symlink targets, entry position, inv_b. Tie: every shape <= 4 nodes with mixed classes, a second tree, "
              "links (same tree / other tree / link to link) or all-__slots__ LightNodeMixin; every entry node; deepcopy "
